@@ -4,3 +4,7 @@ LEAVES = [
     dict(name='nFromLength', file='util/rdm_utils.py', func='_get_n_from_length',
          kind='func', params={'n': 'Nat'}, ret='Nat'),
 ]
+
+# round 2: the condensed-vector length `from_partials` allocates for `n_patterns` conditions
+LEAVES.append(dict(name='fpVectorLen', file='rdm/combine.py', func='from_partials', kind='assign',
+                   target='vector_len', count=1, params={'n_patterns': 'Nat'}, ret='Nat'))
